@@ -7,7 +7,12 @@
 (*   src    the source descriptor (a member of CoordLazy!Sources)          *)
 (*   init   {var: tag} of the coordinate variables right after construction*)
 (*   steps  sequence of                                                    *)
-(*            act      a coordinate property name, or "normalize"          *)
+(*            act      a coordinate property name, "normalize", "chunk"    *)
+(*                     (Grid.chunk()) or "recentre"                        *)
+(*                     (construct_face_centers("cartesian average"))       *)
+(*            fpos     which position the face-centre variables denote:    *)
+(*                     "src" supplied direction, "cen" normalised mean of  *)
+(*                     the corners, "mixed", "na" (also fpos0 for init)    *)
 (*            tags     {var: tag} of every coordinate variable in Grid._ds *)
 (*                     after the call (the frame each array is really in,  *)
 (*                     decided numerically against the lattice)            *)
@@ -49,13 +54,18 @@ Range(s)   == { s[j] : j \in DOMAIN s }
 ObsStore(o) == [v \in Var |-> IF v \in DOMAIN o THEN o[v] ELSE "none"]
 
 TagsAt(r, k)  == IF k = 0 THEN r.init ELSE r.steps[k].tags
+FposAt(r, k)  == IF k = 0 THEN r.fpos0 ELSE r.steps[k].fpos     \* "src" | "cen" | "mixed" | "na"
 Ran(r, k)   == \E j \in 1..k : r.steps[j].act = "normalize"
+Rec(r, k)   == \E j \in 1..k : r.steps[j].act = "recentre"
 
 \* ---- normative clauses, per step -------------------------------------------------
 TagFails(r, k) ==
-  LET o == TagsAt(r, k)  ran == Ran(r, k) IN
+  LET o == TagsAt(r, k)  ran == Ran(r, k)  rec == Rec(r, k)  fp == FposAt(r, k) IN
   { <<ClauseOf(r.src, v, o[v]), v, o[v]>> :
-       v \in { w \in DOMAIN o : w \in Var /\ o[w] \notin OkTags(r.src, w, ran) } }
+       v \in { w \in DOMAIN o : w \in Var /\ o[w] \notin OkTags(r.src, w, ran, rec) } }
+  \cup \* the face centres denote the supplied direction, and the centroid once construct_face_centers ran
+     (IF r.src.face # "none" /\ fp # "na" /\ fp # OkFpos(r.src, rec)
+      THEN { <<IF rec THEN "Recentred" ELSE "SamePoint", "face", fp>> } ELSE {})
 
 StepFails(r, k) ==
   IF k = 0
@@ -66,64 +76,76 @@ StepFails(r, k) ==
       o    == st.tags
       prev == TagsAt(r, k - 1)
       ran  == Ran(r, k)
-      isAcc == st.act # "normalize"
+      rec  == Rec(r, k)
+      isAcc == st.act \in Var
   IN TagFails(r, k)
-     \cup (IF isAcc /\ HasF(st, "ret") /\ st.ret \notin OkTags(r.src, st.act, ran)
+     \cup (IF isAcc /\ HasF(st, "ret") /\ st.ret \notin OkTags(r.src, st.act, ran, rec)
            THEN { <<ClauseOf(r.src, st.act, st.ret), st.act, st.ret>> } ELSE {})
      \cup { <<"Monotone", v, "none">> : v \in (DOMAIN prev) \ (DOMAIN o) }
      \cup (IF isAcc /\ ~HasF(st, "err") /\ st.act \notin DOMAIN o
            THEN { <<"AccessReturns", st.act, "none">> } ELSE {})
      \cup (IF HasF(st, "err") THEN { <<"Raises", st.act, "error">> } ELSE {})
-     \cup (IF isAcc THEN {}
+     \cup (IF st.act # "normalize" THEN {}
            ELSE { <<"NormalizeLengthsOnly", v, o[v]>> :
                     v \in { w \in (DOMAIN prev) \cap (DOMAIN o) :
                               IF IsCart(w) THEN DirClass(o[w]) # DirClass(prev[w])
                               ELSE (o[w] # prev[w] \/ w \in Range(st.changed)) } })
+     \cup (IF st.act # "chunk" THEN {}          \* chunking changes no value
+           ELSE { <<"ChunkKeeps", v, o[v]>> :
+                    v \in { w \in (DOMAIN prev) \cap (DOMAIN o) : o[w] # prev[w] \/ w \in Range(st.changed) } })
+     \cup (IF st.act # "recentre" \/ HasF(st, "err") THEN {}    \* all five face-centre variables are (re)written
+           ELSE { <<"AccessReturns", v, "none">> : v \in { w \in Var : KindOf(w) = "face" /\ w \notin DOMAIN o } })
 
 \* ---- the trace machine -------------------------------------------------------------
 \* One TLC state per recorded step (so validation is linear in the length of the trace):
 \*   i      < 0: block marker; > 0: index of the record being validated
 \*   k      number of steps consumed
-\*   mst, mnorm   store and _normalized flag MechObserved predicts after k steps
+\*   mst, mnorm, mfp   store, _normalized flag and face-centre position MechObserved predicts after k steps
 \*   fails  {<<clause, var, tag, first step, predicted by MechObserved>>} so far
 \*   dr     <<>> or <<first step at which the recorded store differs from mst, differences>>
-VARIABLES k, mst, mnorm, fails, dr
-vars == <<i, k, mst, mnorm, fails, dr>>
+VARIABLES k, mst, mnorm, mfp, fails, dr
+vars == <<i, k, mst, mnorm, mfp, fails, dr>>
 
 Known(fs)  == { <<f[1], f[2], f[3]>> : f \in fs }
-Stamp(r, kk, st, fs, old) ==
-  old \cup { <<f[1], f[2], f[3], kk, (f[2] \in Var /\ st[f[2]] = f[3])>> : f \in (fs \ Known(old)) }
-DriftAt(r, kk, st) ==
+Stamp(r, kk, st, fp, fs, old) ==
+  old \cup { <<f[1], f[2], f[3], kk, IF f[2] \in Var THEN st[f[2]] = f[3] ELSE (f[2] = "face" /\ fp = f[3])>> : f \in (fs \ Known(old)) }
+DriftAt(r, kk, st, fp) ==
   LET o == ObsStore(TagsAt(r, kk))
       d == { <<v, o[v], st[v]>> : v \in { w \in Var : o[w] # st[w] } }
+           \cup (IF FposAt(r, kk) \notin {"na", fp} THEN { <<"face", FposAt(r, kk), fp>> } ELSE {})
   IN IF d = {} THEN <<>> ELSE <<kk, d>>
 
 Init == /\ i \in { -b : b \in 1..NBlocks }
-        /\ k = 0 /\ mst = <<>> /\ mnorm = "" /\ fails = {} /\ dr = <<>>
+        /\ k = 0 /\ mst = <<>> /\ mnorm = "" /\ mfp = "" /\ fails = {} /\ dr = <<>>
 
 Start == /\ i < 0
          /\ \E j \in { n \in 1..Len(Recs) : (n - 1) \div Block = (-i) - 1 } :
               LET r  == Recs[j]
                   st == InitStore(r.src)
+                  fp == InitFpos(r.src)
               IN /\ i' = j
                  /\ k' = 0
                  /\ mst' = st
                  /\ mnorm' = "unknown"
-                 /\ fails' = Stamp(r, 0, st, StepFails(r, 0), {})
-                 /\ dr' = DriftAt(r, 0, st)
+                 /\ mfp' = fp
+                 /\ fails' = Stamp(r, 0, st, fp, StepFails(r, 0), {})
+                 /\ dr' = DriftAt(r, 0, st, fp)
 
 Step == /\ i > 0
         /\ k < Len(Recs[i].steps)
         /\ LET r == Recs[i]
                a == r.steps[k + 1].act
-               e == IF a = "normalize" THEN NormalizeEff(MechObserved, mst, mnorm)
-                    ELSE [st |-> AccessEff(MechObserved, mst, a), norm |-> mnorm]
+               e == CASE a = "normalize" -> [NormalizeEff(MechObserved, mst, mnorm) EXCEPT !.st = @] @@ [fpos |-> mfp]
+                      [] a = "recentre"  -> RecentreEff(MechObserved, mst, mfp) @@ [norm |-> mnorm]
+                      [] a = "chunk"     -> [st |-> ChunkEff(MechObserved, mst), norm |-> mnorm, fpos |-> mfp]
+                      [] OTHER           -> [st |-> AccessEff(MechObserved, mst, a), norm |-> mnorm, fpos |-> mfp]
            IN /\ i' = i
               /\ k' = k + 1
               /\ mst' = e.st
               /\ mnorm' = e.norm
-              /\ fails' = Stamp(r, k + 1, e.st, StepFails(r, k + 1), fails)
-              /\ dr' = IF dr # <<>> THEN dr ELSE DriftAt(r, k + 1, e.st)
+              /\ mfp' = e.fpos
+              /\ fails' = Stamp(r, k + 1, e.st, e.fpos, StepFails(r, k + 1), fails)
+              /\ dr' = IF dr # <<>> THEN dr ELSE DriftAt(r, k + 1, e.st, e.fpos)
 
 Next == Start \/ Step
 
